@@ -63,6 +63,7 @@ ALL = [
     ('P27-comment-in-core', ['C18', 'C14'], lambda: docx(p(r('x')), root_rels=[('rId1', 'officeDocument', 'word/document.xml'), ('rId2', CORE_RT, 'docProps/core.xml')],
                                                  extra={'docProps/core.xml': '<cp:coreProperties xmlns:cp="http://schemas.openxmlformats.org/package/2006/metadata/core-properties" xmlns:dc="http://purl.org/dc/elements/1.1/"><!-- c --><dc:title>T</dc:title></cp:coreProperties>'})),
     ('P17-part-related-twice', ['C16'], lambda: docx(p(r('«1»body')), docrels=[('rId2', 'header', 'h.xml'), ('rId3', 'header', 'h.xml')], extra={'word/h.xml': f'<w:hdr {NS}>' + p(r('«2»head')) + '</w:hdr>'})),
+    ('P17b-part-related-under-two-types', ['C16'], lambda: docx(p(r('«1»body')), docrels=[('rId2', 'http://example.com/relationships/pageTemplate', 'h.xml'), ('rId3', 'header', 'h.xml')], extra={'word/h.xml': f'<w:hdr {NS}>' + p(r('«2»head')) + '</w:hdr>'})),
     ('plain-two-tables', ['C01', 'C02', 'C03', 'C05', 'C19', 'C13'], lambda: docx(p(r('«1»a')) + tbl(tr(tc(p(r('«2»b'))), tc(p(r('«3»c'))))) + p(r('«4»d')) + tbl(tr(tc(p(r('«5»e'))))))),
 ]
 
